@@ -326,6 +326,9 @@ func (x *Exec) dummyResults(fn *types.Func, st *State) []*Value {
 func (x *Exec) newFrame(fi *FuncInfo) *frame {
 	f := &frame{fi: fi, info: fi.Pkg.TypesInfo, pkg: fi.Pkg.Types, boxed: map[types.Object]bool{}, boxRef: map[types.Object]*Term{}, loopOrd: map[ast.Node]int{}}
 	f.contract = x.eng.db.C[fi.Key]
+	if len(x.frames) == 0 && x.c != nil {
+		f.contract = x.c // the contract under verification (possibly a "Func@variant")
+	}
 	sig := fi.Obj.Type().(*types.Signature)
 	for i := 0; i < sig.Results().Len(); i++ {
 		f.results = append(f.results, sig.Results().At(i))
